@@ -382,3 +382,17 @@ Definition nfresh_of (g : graph nval) (sm : sem nval nmask nat) (fx : bool) (ops
   | Some st => Some (scratch g (values st) i)
   | None => None
   end.
+
+(** * "row [j] of the result is the forked row where the mask holds and the current row elsewhere", for a value of any kind:
+      the rows of the value AND of the weight (when there is one) come from the same side *)
+Definition rows_from (m : list bool) (o c t : tens) : Prop :=
+  length (rows t) = length m /\
+  forall j b, nth_error m j = Some b -> nth_error (rows t) j = (if b then nth_error (rows o) j else nth_error (rows c) j).
+
+Definition rows_selected (m : list bool) (old cur r : nval) : Prop :=
+  match old, cur, r with
+  | NP o, NP c, NP t => rows_from m o c t
+  | NW ov (Some ow), NW cv (Some cw), NW rv (Some rw) => rows_from m ov cv rv /\ rows_from m ow cw rw
+  | NW ov None, NW cv None, NW rv None => rows_from m ov cv rv
+  | _, _, _ => False
+  end.
